@@ -110,535 +110,6 @@ def _assigned_from(func, pred):
     return out
 
 
-def r31(ctx, repo, upd):
-    old = _assigned_from(upd, lambda v: is_self_attr(v, "_old_config"))
-    cur = _assigned_from(upd, lambda v: isinstance(v, ast.Subscript)
-                         and const_str(v.slice) == "filtering")
-    if not old or not cur:
-        raise AnalysisError("Filter.update: cfg_old / cfg_cur bindings lost")
-    old_names, cur_names = set(old), set(cur)
-    # lists that feed the recomputation set
-    loops = [n for n in walk(upd) if isinstance(n, ast.For)]
-    # names derived from the old settings (one level)
-    derived_old = set(old_names)
-    for n in walk(upd):
-        if isinstance(n, ast.Assign) and len(n.targets) == 1 and isinstance(
-                n.targets[0], ast.Name) and names_in(n.value) & old_names:
-            # e.g. removed = [k for k in cfg_old if k not in cfg_cur]
-            if isinstance(n.value, (ast.ListComp, ast.BinOp, ast.Call,
-                                    ast.SetComp, ast.GeneratorExp)):
-                derived_old.add(n.targets[0].id)
-    appenders = []
-    for lp in loops:
-        apps = [c for c in find_calls(lp, attr="append")
-                if isinstance(c.func.value, ast.Name)]
-        if not apps:
-            continue
-        # does the loop compare current and previous values?  (locals bound
-        # inside the loop from the old / current settings count as such)
-        l_old, l_cur = set(old_names), set(cur_names)
-        for n in walk(lp):
-            if isinstance(n, ast.Assign) and len(n.targets) == 1 \
-                    and isinstance(n.targets[0], ast.Name):
-                if names_in(n.value) & old_names:
-                    l_old.add(n.targets[0].id)
-                if names_in(n.value) & cur_names:
-                    l_cur.add(n.targets[0].id)
-        cmp_both = any(isinstance(c, ast.Compare)
-                       and names_in(c) & l_old and names_in(c) & l_cur
-                       for c in walk(lp))
-        if cmp_both:
-            appenders.append(lp)
-    if not appenders:
-        raise AnalysisError("Filter.update: settings-diff loop not found")
-    covers_removed = any(names_in(lp.iter) & derived_old for lp in appenders)
-    # purge idiom
-    purge = False
-    for lp in loops:
-        if "_box_filters" in txt(lp.iter) and (
-                find_calls(lp, attr="pop") or any(
-                    isinstance(x, ast.Delete) for x in walk(lp))):
-            purge = True
-    ok = covers_removed or purge
-    ctx.ob("R3.1", ok,
-           "the settings diff also visits keys that were removed since the "
-           "last update" if ok else
-           "the settings diff iterates the current keys only: a min/max pair "
-           "that was removed keeps its stale box filter in the conjunction",
-           node=appenders[0], label="diff covers removed keys")
-    # subscripting cfg_cur with a possibly removed key must use .get
-    if covers_removed:
-        lp = [x for x in appenders if names_in(x.iter) & derived_old][0]
-        var = lp.target.id if isinstance(lp.target, ast.Name) else None
-        bad = [s for s in walk(lp) if isinstance(s, ast.Subscript)
-               and isinstance(s.value, ast.Name) and s.value.id in cur_names
-               and isinstance(s.slice, ast.Name) and s.slice.id == var]
-        ctx.ob("R3.1", not bad,
-               "removed keys are looked up with .get() in the current "
-               "settings" if not bad else
-               f"`{short(bad[0], 30)}` raises KeyError for a removed key",
-               node=bad[0] if bad else lp, label="diff lookup tolerant")
-    # snapshot is a copy, taken as the last step
-    snaps = [n for n in walk(upd) if isinstance(n, ast.Assign)
-             and any(is_self_attr(t, "_old_config") for t in n.targets)]
-    if not snaps:
-        raise AnalysisError("Filter.update: snapshot of settings lost")
-    for s in snaps:
-        v = s.value
-        copied = any(isinstance(c, ast.Call) and (
-            last_attr(c) in ("copy", "deepcopy") or call_name(c) == "dict")
-            for c in ast.walk(v))
-        ctx.ob("R3.1", copied,
-               "the remembered settings are a copy of the current ones"
-               if copied else
-               "the remembered settings alias the live configuration: later "
-               "edits are invisible to the diff",
-               node=s, label="snapshot is a copy")
-        last = upd.body[-1] is s
-        ctx.ob("R3.1", last, "the snapshot is taken as the last step"
-               if last else "the snapshot is not the last statement of "
-               "update()", node=s, label="snapshot last", nontrivial=False)
-    # the settings may only be remembered on a path that recomputed the box
-    # filters from the diff (a short-cut that snapshots without recomputing
-    # makes the changes made meanwhile invisible for ever)
-    from ..cfg import CFG
-    ucfg = CFG(upd)
-    box_loops = [n for n in walk(upd) if isinstance(n, ast.For)
-                 and "feat2filter" in txt(n.iter)]
-    if not box_loops:
-        raise AnalysisError("Filter.update: box recomputation loop lost")
-    heads = set()
-    for bl in box_loops:
-        heads |= set(ucfg.ids_of(bl))
-    for sn in snaps:
-        for nid in ucfg.ids_of(sn):
-            ok = ucfg.always_before(nid, lambda n_: n_.id in heads)
-            ctx.ob("R3.1", ok,
-                   "the settings are remembered only after the box filters "
-                   "were recomputed from the diff" if ok else
-                   "a path remembers the settings without recomputing the "
-                   "box filters: edits applied on that path are never seen "
-                   "by a later diff", node=sn,
-                   label="snapshot after recomputation")
-    # feat2filter derives from newkeys with the min/max suffix rule
-    suffix = []
-    got = set()
-    for n in walk(upd):
-        if isinstance(n, ast.Call) and last_attr(n) == "endswith" and n.args:
-            a0 = n.args[0]
-            vals = [const_str(a0)] if const_str(a0) else (
-                [const_str(x) for x in a0.elts]
-                if isinstance(a0, (ast.Tuple, ast.List)) else [])
-            hit = {v for v in vals if v in (" min", " max")}
-            if hit:
-                suffix.append(n)
-                got |= hit
-    ctx.ob("R3.1", got == {" min", " max"},
-           "both ' min' and ' max' keys trigger a recomputation"
-           if got == {" min", " max"} else
-           f"only {sorted(got)} keys trigger a recomputation",
-           node=suffix[0] if suffix else upd, label="min and max suffixes")
-
-
-def r32(ctx, repo, upd):
-    # locate bound variables
-    def is_cfg_sub(v, var):
-        return isinstance(v, ast.Subscript) and isinstance(
-            v.slice, ast.Name) and v.slice.id == var
-    start = _assigned_from(upd, lambda v: isinstance(v, ast.BinOp)
-                           and const_str(v.right) == " min")
-    end = _assigned_from(upd, lambda v: isinstance(v, ast.BinOp)
-                         and const_str(v.right) == " max")
-    if len(start) != 1 or len(end) != 1:
-        raise AnalysisError("Filter.update: min/max key variables lost")
-    fstart, fend = list(start)[0], list(end)[0]
-    lo = _assigned_from(upd, lambda v: is_cfg_sub(v, fstart))
-    hi = _assigned_from(upd, lambda v: is_cfg_sub(v, fend))
-    if len(lo) != 1 or len(hi) != 1:
-        raise AnalysisError("Filter.update: bound variables lost")
-    lo_n, hi_n = list(lo)[0], list(hi)[0]
-    # activity predicate
-    def is_activity(v):
-        v = expand_bool_locals(upd, v)
-        return isinstance(v, ast.BoolOp) and any(
-            isinstance(c, ast.Subscript) and is_cfg_sub(c, fstart)
-            and isinstance(c.ctx, ast.Load) for c in ast.walk(v))
-    mbf = _assigned_from(upd, is_activity)
-    if len(mbf) != 1:
-        raise AnalysisError("Filter.update: activity predicate lost")
-    mname, mnode = list(mbf.items())[0]
-    mvalue = expand_bool_locals(upd, mnode.value)
-
-    # tolerance comparisons (np.isclose & co.) are not equality: model them
-    # as "equal or CLOSE" with CLOSE an unknown the evaluation ranges over
-    class _Tol(ast.NodeTransformer):
-        hit = False
-
-        def visit_Call(self, node):
-            self.generic_visit(node)
-            nm = (call_name(node) or "").split(".")[-1]
-            if nm in ("isclose", "allclose") and len(node.args) >= 2:
-                _Tol.hit = True
-                return ast.BoolOp(op=ast.Or(), values=[
-                    ast.Compare(left=node.args[0], ops=[ast.Eq()],
-                                comparators=[node.args[1]]),
-                    ast.Name(id="CLOSE", ctx=ast.Load())])
-            return node
-    _Tol.hit = False
-    mvalue = ast.fix_missing_locations(_Tol().visit(mvalue))
-    tolerant = _Tol.hit
-
-    def res_active(node):
-        if isinstance(node, ast.Subscript) and is_cfg_sub(node, fstart):
-            return "lo"
-        if isinstance(node, ast.Subscript) and is_cfg_sub(node, fend):
-            return "hi"
-        if isinstance(node, ast.Compare) and isinstance(
-                node.ops[0], ast.In):
-            return "present"
-        return None
-    bad = []
-    for env in orderings(["lo", "hi"]):
-        for close in ((False, True) if tolerant else (False,)):
-            e = dict(env)
-            e["present"] = True
-            e["CLOSE"] = close
-            got = bool(eval_pred(mvalue, e, res_active))
-            want = env["lo"] != env["hi"]
-            if got != want:
-                bad.append((dict(env, close_but_distinct=close), got))
-    e = {"lo": 0.0, "hi": 1.0, "present": False, "CLOSE": False}
-    if eval_pred(mvalue, e, res_active):
-        bad.append(("missing key", True))
-    ctx.ob("R3.2", not bad,
-           "a range is active exactly when both bounds are set and differ "
-           "(3 orderings + absent)" if not bad else
-           f"activity predicate wrong for {bad[0]}", node=mnode,
-           label="range active iff min != max")
-    # the guarded block
-    mtxt = txt(mvalue)
-
-    def tests_activity(t):
-        return isinstance(t, ast.Name) and t.id == mname or txt(
-            expand_bool_locals(upd, t)) == mtxt
-    guard = [n for n in walk(upd) if isinstance(n, ast.If)
-             and tests_activity(n.test)
-             and any(isinstance(x, ast.AugAssign) for x in walk(n))]
-    if not guard:
-        raise AnalysisError("Filter.update: guarded box block lost")
-    blk = guard[0]
-    # swap
-    swap = None
-    for n in walk(blk):
-        if isinstance(n, ast.If) and isinstance(n.test, ast.Compare) \
-                and names_in(n.test) == {lo_n, hi_n}:
-            for s in n.body:
-                if isinstance(s, ast.Assign) and isinstance(
-                        s.targets[0], ast.Tuple) and isinstance(
-                        s.value, ast.Tuple):
-                    t = [txt(x) for x in s.targets[0].elts]
-                    v = [txt(x) for x in s.value.elts]
-                    if t == [lo_n, hi_n] and v == [hi_n, lo_n] or \
-                            t == [hi_n, lo_n] and v == [lo_n, hi_n]:
-                        swap = n
-    # comparisons with data
-    data_names = set(_assigned_from(
-        blk, lambda v: isinstance(v, ast.Subscript) and txt(v.value) in (
-            "rtdc_ds",)))
-    if not data_names:
-        raise AnalysisError("Filter.update: data binding lost")
-    comps = []
-    for n in walk(blk):
-        if isinstance(n, ast.AugAssign) and isinstance(n.op, ast.BitAnd):
-            for c in ast.walk(n.value):
-                if isinstance(c, ast.Compare) and names_in(c) & data_names:
-                    comps.append(c)
-        elif isinstance(n, ast.Assign) and any(
-                isinstance(c, ast.Compare) and names_in(c) & data_names
-                and names_in(c) & {lo_n, hi_n} for c in ast.walk(n.value)):
-            for c in ast.walk(n.value):
-                if isinstance(c, ast.Compare) and names_in(c) & data_names:
-                    comps.append(c)
-    if not comps:
-        raise AnalysisError("Filter.update: no comparison with the data")
-
-    def res(node):
-        if isinstance(node, ast.Name) and node.id == lo_n:
-            return "lo"
-        if isinstance(node, ast.Name) and node.id == hi_n:
-            return "hi"
-        if isinstance(node, ast.Subscript) and isinstance(
-                node.value, ast.Name) and node.value.id in data_names:
-            return "v"
-        if isinstance(node, ast.Name) and node.id in data_names:
-            return "v"
-        return None
-    # NaN handling: a statement sets the filter False where isnan(data)
-    nanmask = _assigned_from(blk, lambda v: isinstance(v, ast.Call)
-                             and call_name(v) in ("np.isnan", "numpy.isnan")
-                             and names_in(v) & data_names)
-    nan_false = False
-    for n in walk(blk):
-        if isinstance(n, ast.Assign) and isinstance(
-                n.targets[0], ast.Subscript) and isinstance(
-                n.value, ast.Constant) and n.value.value is False \
-                and names_in(n.targets[0].slice) & set(nanmask):
-            nan_false = True
-    # are the comparisons restricted to the non-NaN positions?
-    restricted = False
-    idx_names = set(_assigned_from(
-        blk, lambda v: isinstance(v, ast.UnaryOp) and isinstance(
-            v.op, ast.Invert) and names_in(v) & set(nanmask)))
-    for n in walk(blk):
-        if isinstance(n, ast.AugAssign) and isinstance(
-                n.target, ast.Subscript) and names_in(
-                n.target.slice) & idx_names:
-            restricted = True
-    bad = []
-    n_eval = 0
-    for env in orderings(["lo", "hi", "v"], with_nan=("v",)):
-        e = dict(env)
-        if swap is not None:
-            if eval_pred(swap.test, {lo_n: e["lo"], hi_n: e["hi"]}):
-                e["lo"], e["hi"] = e["hi"], e["lo"]
-        if env["lo"] == env["hi"]:
-            continue    # inactive range (decided above)
-        if math.isnan(e["v"]):
-            got = False if nan_false else (
-                True if restricted else all(
-                    eval_pred(c, e, res) for c in comps))
-            want = False
-        else:
-            got = all(eval_pred(c, e, res) for c in comps)
-            want = min(env["lo"], env["hi"]) <= env["v"] <= max(
-                env["lo"], env["hi"])
-        n_eval += 1
-        if bool(got) != want:
-            bad.append((env, bool(got), want))
-    ctx.stat("R3.2 order types evaluated", n_eval)
-    ctx.ob("R3.2", not bad,
-           f"box predicate equals 'lo <= v <= hi after swap; NaN never "
-           f"inside' on all {n_eval} order types" if not bad else
-           f"box predicate differs from the inclusive-range specification "
-           f"for ordering {bad[0][0]}: code says "
-           f"{'inside' if bad[0][1] else 'outside'}, specification "
-           f"{'inside' if bad[0][2] else 'outside'} "
-           f"({len(bad)} of {n_eval} order types)",
-           node=comps[0], label="box predicate over order types")
-    # the feature filter is reset before it is AND-ed
-    resets = [n for n in walk(upd) if isinstance(n, ast.Assign)
-              and isinstance(n.targets[0], ast.Subscript)
-              and isinstance(n.value, ast.Constant) and n.value.value is True
-              and txt(n.targets[0].value) == "feat_filt"]
-    ctx.ob("R3.2", bool(resets),
-           "the per-feature filter is reset to all-True before the range is "
-           "applied" if resets else
-           "the per-feature filter is not reset: a widened range cannot "
-           "re-admit events", node=resets[0] if resets else blk,
-           label="feature filter reset")
-    # ... and unconditionally: also when the range became inactive or was
-    # removed (the reset must not sit under the activity test)
-    if resets:
-        under = None
-        n = resets[0].parent
-        while n is not None and not isinstance(n, ast.FunctionDef):
-            if isinstance(n, ast.If) and (
-                    mname in names_in(n.test) or mtxt in txt(
-                        expand_bool_locals(upd, n.test))):
-                under = n
-            n = getattr(n, "parent", None)
-        ctx.ob("R3.2", under is None,
-               "the reset also runs when the range is inactive or removed"
-               if under is None else
-               "the reset only runs for an active range: a range that is "
-               "deactivated (min == max) or removed keeps its old selection",
-               node=resets[0], label="feature filter reset unconditional")
-
-
-def r33(ctx, repo, upd):
-    arrs = {}
-    for n in walk(upd):
-        if isinstance(n, ast.Assign) and isinstance(n.value, ast.Call) \
-                and last_attr(n.value) == "_get_rw_array" and n.value.args:
-            arrs[n.targets[0].id] = const_str(n.value.args[0])
-    inv = {v: k for k, v in arrs.items()}
-    for need in ("all", "box", "invalid", "polygon"):
-        if need not in inv:
-            raise AnalysisError(f"Filter.update: array '{need}' lost")
-    # enabled branch (either polarity of the test)
-    en, en_body, dis_body = _enabled_branches(upd)
-
-    def all_assign(body):
-        for s in body:
-            if isinstance(s, ast.Assign) and isinstance(
-                    s.targets[0], ast.Subscript) and txt(
-                    s.targets[0].value) == inv["all"]:
-                return s
-        return None
-    ops = set()
-
-    def collect(e):
-        if isinstance(e, ast.BinOp) and isinstance(e.op, ast.BitAnd):
-            collect(e.left)
-            collect(e.right)
-        elif isinstance(e, ast.Call) and (call_name(e) or "").endswith(
-                "logical_and") and len(e.args) == 2:
-            collect(e.args[0])
-            collect(e.args[1])
-        else:
-            ops.add(arrs.get(txt(e), txt(e)))
-    a = all_assign(en_body)
-    all_name = inv["all"]
-    # the conjunction may be built in steps: all[:] = a & b ; all &= c ; or
-    # np.logical_and(a, b, out=all)
-    for s_ in en_body:
-        if isinstance(s_, ast.Expr) and isinstance(s_.value, ast.Call) and (
-                call_name(s_.value) or "").endswith("logical_and"):
-            out_ = kwarg(s_.value, "out", 2)
-            if out_ is not None and txt(out_) == all_name:
-                if a is None:
-                    a = s_
-                collect(ast.Call(func=s_.value.func,
-                                 args=s_.value.args[:2], keywords=[]))
-        elif isinstance(s_, ast.AugAssign) and isinstance(
-                s_.op, ast.BitAnd) and txt(s_.target) in (
-                all_name, all_name + "[:]"):
-            collect(s_.value)
-    if a is None:
-        raise AnalysisError("Filter.update: assignment of `all` lost")
-    if isinstance(a, ast.Assign):
-        collect(a.value)
-    want = {"box", "invalid", "polygon", "self.manual"}
-    ctx.ob("R3.3", ops == want,
-           "all = box & invalid & polygon & manual" if ops == want else
-           f"conjunction operands are {sorted(ops)}, expected {sorted(want)}",
-           node=a, label="conjunction operands")
-    b = all_assign(dis_body)
-    ok = b is not None and isinstance(b.value, ast.Constant) \
-        and b.value.value is True
-    ctx.ob("R3.3", ok, "with filters disabled every event is selected"
-           if ok else "disabled branch does not select every event",
-           node=b or en, label="disabled selects all")
-    ctx.ob("R3.3", a is not None, "the conjunction is on the enabled branch",
-           node=en, label="enabled polarity", nontrivial=False)
-    # accumulators reset before and-ing
-    for kind in ("box", "invalid", "polygon"):
-        name = inv[kind]
-        reset = None
-        acc = []
-        for n in walk(upd):
-            if isinstance(n, ast.Assign) and isinstance(
-                    n.targets[0], ast.Subscript) and txt(
-                    n.targets[0].value) == name and isinstance(
-                    n.value, ast.Constant) and n.value.value is True:
-                reset = n
-            if isinstance(n, ast.AugAssign) and isinstance(
-                    n.op, ast.BitAnd) and txt(n.target) == name:
-                acc.append(n)
-        ok = reset is not None and acc and all(
-            reset.lineno < x.lineno for x in acc)
-        ctx.ob("R3.3", bool(ok),
-               f"`{kind}` is rebuilt from all-True on every update" if ok
-               else f"`{kind}` is not reset before it is AND-ed "
-               f"(can only shrink over time)",
-               node=reset or (acc[0] if acc else upd),
-               label=f"accumulator reset {kind}")
-    # ... on *every* path of update(): a reset that only runs when some
-    # setting changed turns the accumulator into a cache with an incomplete
-    # key (new features, new data are never scanned)
-    from ..cfg import CFG
-    ucfg = CFG(upd)
-    for kind in ("box", "invalid", "polygon"):
-        name = inv[kind]
-        rs = [n for n in walk(upd) if isinstance(n, ast.Assign) and isinstance(
-            n.targets[0], ast.Subscript) and txt(
-            n.targets[0].value) == name and isinstance(
-            n.value, ast.Constant) and n.value.value is True]
-        if not rs:
-            continue
-        ids = set()
-        for r_ in rs:
-            ids |= set(ucfg.ids_of(r_))
-        ok = ucfg.must_pass(lambda n_: n_.id in ids,
-                            avoid_edge=lambda s_, l_, d_: l_ == "x")
-        ctx.ob("R3.3", ok,
-               f"`{kind}` is rebuilt on every normal path through update()"
-               if ok else
-               f"`{kind}` is only rebuilt under a condition (e.g. when a "
-               f"setting changed): data or features that appear later are "
-               f"never evaluated", node=rs[0],
-               label=f"accumulator reset unconditional {kind}")
-    # box accumulates every per-feature filter; polygon every cached polygon
-    for kind, store in (("box", "_box_filters"), ("polygon", "_poly_filters")):
-        name = inv[kind]
-        ok = False
-        for lp in walk(upd):
-            if isinstance(lp, ast.For) and is_self_attr(lp.iter, store):
-                for n in walk(lp):
-                    if isinstance(n, ast.AugAssign) and txt(
-                            n.target) == name and store in txt(n.value):
-                        ok = True
-        ctx.ob("R3.3", ok,
-               f"`{kind}` AND-s every entry of {store}" if ok else
-               f"`{kind}` does not combine all entries of {store}",
-               node=upd, label=f"accumulator complete {kind}")
-    # invalid: isinf | isnan over all features under the switch
-    inv_if = [n for n in walk(upd) if isinstance(n, ast.If)
-              and "remove invalid events" in txt(n.test)
-              and any(isinstance(x, ast.AugAssign) for x in walk(n))]
-    ok = False
-    if inv_if:
-        # what is AND-ed into the accumulator, evaluated on the four value
-        # classes of a float: kept for finite values, dropped for nan/±inf
-        aug = [x for x in walk(inv_if[0]) if isinstance(x, ast.AugAssign)
-               and isinstance(x.op, ast.BitAnd)]
-        loops = [lp for lp in walk(inv_if[0]) if isinstance(lp, ast.For)
-                 and is_self_attr(lp.iter, "features")]
-
-        def ev(e, cls, fn):
-            if isinstance(e, ast.UnaryOp) and isinstance(
-                    e.op, (ast.Invert, ast.Not)):
-                return not ev(e.operand, cls, fn)
-            if isinstance(e, ast.BinOp) and isinstance(e.op, ast.BitOr):
-                return ev(e.left, cls, fn) or ev(e.right, cls, fn)
-            if isinstance(e, ast.BinOp) and isinstance(e.op, ast.BitAnd):
-                return ev(e.left, cls, fn) and ev(e.right, cls, fn)
-            if isinstance(e, ast.Call):
-                nm = (call_name(e) or "").split(".")[-1]
-                if nm == "isnan":
-                    return cls == "nan"
-                if nm == "isinf":
-                    return cls in ("+inf", "-inf")
-                if nm == "isposinf":
-                    return cls == "+inf"
-                if nm == "isneginf":
-                    return cls == "-inf"
-                if nm == "isfinite":
-                    return cls == "finite"
-                if nm in ("logical_or", "logical_and") and len(e.args) == 2:
-                    a_, b_ = (ev(x, cls, fn) for x in e.args)
-                    return (a_ or b_) if nm == "logical_or" else (a_ and b_)
-                if nm in ("logical_not", "invert") and len(e.args) == 1:
-                    return not ev(e.args[0], cls, fn)
-            if isinstance(e, ast.Name):
-                d = [n_ for n_ in walk(fn) if isinstance(n_, ast.Assign)
-                     and len(n_.targets) == 1 and txt(n_.targets[0]) == e.id]
-                if len(d) == 1:
-                    return ev(d[0].value, cls, fn)
-            raise AnalysisError("Filter.update: invalid-event mask "
-                                f"`{short(e, 40)}` cannot be evaluated")
-        if aug and loops:
-            keeps = {c: ev(aug[0].value, c, inv_if[0])
-                     for c in ("finite", "nan", "+inf", "-inf")}
-            ok = keeps == {"finite": True, "nan": False, "+inf": False,
-                           "-inf": False}
-    ctx.ob("R3.3", ok, "invalid-event removal excludes inf and nan of every "
-           "scalar feature when switched on" if ok else
-           "invalid-event removal no longer covers inf and nan of all "
-           "features", node=inv_if[0] if inv_if else upd,
-           label="invalid removal")
-
-
 def r34(ctx, repo, upd):
     h = repo.func(POLY, "PolygonFilter.hash")
     hashed = {n.attr for n in walk(h) if is_self_attr(n)}
@@ -666,47 +137,6 @@ def r34(ctx, repo, upd):
                f"polygon attribute `{a}` is used for filtering but not "
                f"hashed: editing it leaves the cached polygon result",
                node=h, key=f"{POLY}::PolygonFilter.hash::covers {a}")
-    # cache compare by hash and store pairs (hash, result)
-    cmp_ok = any(isinstance(n, ast.Compare) and "pf.hash" in txt(n)
-                 and "_poly_filters" in txt(n) and isinstance(
-                     n.ops[0], ast.NotEq) for n in walk(upd))
-    ctx.ob("R3.4", cmp_ok, "cached polygon results are compared by hash"
-           if cmp_ok else "cached polygon results are reused without "
-           "comparing the polygon hash", node=upd, label="polygon hash test")
-    st_ok = False
-    for n in walk(upd):
-        if isinstance(n, ast.Assign) and "_poly_filters" in txt(
-                n.targets[0]) and isinstance(n.value, ast.Tuple) \
-                and len(n.value.elts) == 2 and txt(
-                    n.value.elts[0]) == "pf.hash" and "filter" in txt(
-                    n.value.elts[1]):
-            st_ok = True
-    ctx.ob("R3.4", st_ok, "polygon results are stored with the hash they "
-           "were computed for" if st_ok else
-           "polygon cache store lost its hash", node=upd,
-           label="polygon store pairs hash")
-    # loop over current settings
-    lp_ok = any(isinstance(n, ast.For) and "polygon filters" in txt(n.iter)
-                for n in walk(upd))
-    ctx.ob("R3.4", lp_ok, "every polygon id of the current settings is "
-           "evaluated" if lp_ok else "polygon ids of the settings are not "
-           "iterated", node=upd, label="polygon loop", nontrivial=False)
-    # removal in _init_rtdc_ds
-    init = repo.func(FILT, "Filter._init_rtdc_ds")
-    ok = False
-    for lp in walk(init):
-        if isinstance(lp, ast.For) and "_poly_filters" in txt(lp.iter):
-            t = txt(lp)
-            ok = "polygon filters" in t and find_calls(lp, attr="pop")
-    ctx.ob("R3.4", bool(ok), "cached results of polygons no longer in the "
-           "settings are dropped" if ok else
-           "polygon filters removed from the settings keep filtering",
-           node=init, label="polygon removal")
-    called = any(last_attr(c) == "_init_rtdc_ds" for c in find_calls(
-        upd, attr="_init_rtdc_ds"))
-    ctx.ob("R3.4", called, "update() re-initialises before evaluating"
-           if called else "update() no longer calls _init_rtdc_ds",
-           node=upd, label="update calls init", nontrivial=False)
     # inversion inside filter(): on every path on which `self.inverted`
     # holds the result is complemented, on no other path
     from ..cfg import CFG, branch_facts
@@ -792,131 +222,6 @@ def r34(ctx, repo, upd):
            f"consulted: for an inverted polygon the short-cut result is not "
            f"complemented", node=byp[0].ast if byp else filt,
            label="no return by-passes inversion")
-
-
-def r35(ctx, repo, upd):
-    en, en_body, dis_body = _enabled_branches(upd)
-    calls = [c for c in find_calls(upd, attr="downsample_rand")]
-    site = None
-    body_fn = upd
-    limit_arg = None
-    if not calls:
-        # the limit code may live in a helper method of the same class
-        for hc in [c for c in walk(upd) if isinstance(c, ast.Call)]:
-            nm = last_attr(hc)
-            if nm and isinstance(hc.func, ast.Attribute) and txt(
-                    hc.func.value) in ("self", "Filter"):
-                helper = repo.func(FILT, f"Filter.{nm}", missing_ok=True)
-                if helper is not None and find_calls(
-                        helper, attr="downsample_rand"):
-                    site = hc
-                    body_fn = helper
-                    calls = find_calls(helper, attr="downsample_rand")
-                    # which helper parameter carries the limit?
-                    params = [a.arg for a in helper.args.args
-                              if a.arg != "self"]
-                    for prm, a in zip(params, hc.args):
-                        if "limit" in txt(a):
-                            limit_arg = prm
-                    break
-    if not calls:
-        raise AnalysisError("Filter.update: event limit lost")
-    c = calls[0]
-    anchor = site if site is not None else c
-    inside = any(x is anchor for x in walk(ast.Module(body=list(en_body),
-                                                      type_ignores=[])))
-    ctx.ob("R3.5", inside, "the event limit is applied on the enabled "
-           "branch only" if inside else "event limit applied although "
-           "filters are disabled", node=c, label="limit in enabled branch")
-    lim = [n for n in walk(en) if isinstance(n, ast.If)
-           and "limit events" in _expand(upd, n.test)]
-    ok = False
-    if lim and isinstance(lim[0].test, ast.Compare) \
-            and len(lim[0].test.ops) == 1:
-        t = lim[0].test
-        l, r = _expand(upd, t.left), _expand(upd, t.comparators[0])
-        ok = (isinstance(t.ops[0], ast.Gt) and "limit events" in l
-              and r == "0") or (isinstance(t.ops[0], ast.Lt) and l == "0"
-                                and "limit events" in r)
-    ctx.ob("R3.5", ok, "limit is applied only for a positive setting" if ok
-           else "guard `limit events > 0` changed", node=lim[0] if lim
-           else en, label="limit positive")
-    # the limit is drawn afresh from the current selection on every update:
-    # every normal path through the (positive) limit block passes the random
-    # draw, and the block keeps no state on the Filter instance
-    if lim:
-        from ..cfg import CFG
-        lcfg = CFG(upd)
-        lim_if = lim[0]
-        draw_stmt = anchor
-        while not isinstance(draw_stmt, ast.stmt):
-            draw_stmt = draw_stmt.parent
-        dids = set(lcfg.ids_of(draw_stmt))
-        ok_draw = True
-        for tid in lcfg.ids_of(lim_if):
-            tsucc = [b for (b, l) in lcfg.succ[tid] if l == "T"]
-            for b in tsucc:
-                if b in dids:
-                    continue
-                # where does the block end?  the first node after the If
-                r_ = lcfg.reach([b], avoid_node=lambda n_: n_.id in dids,
-                                avoid_edge=lambda s_, l_, d_: l_ == "x",
-                                include_sources=True)
-                if lcfg.exit in r_:
-                    ok_draw = False
-        ctx.ob("R3.5", ok_draw,
-               "every path through the limit block draws the selection "
-               "afresh" if ok_draw else
-               "a path through the limit block skips the random draw (e.g. "
-               "re-uses a remembered selection): after the eligible events "
-               "changed, fewer than `limit` events (or the wrong ones) pass",
-               node=lim_if, label="limit drawn on every update")
-        state = [n for n in ast.walk(lim_if) if is_self_attr(n)
-                 and n.attr.startswith("_") and not isinstance(
-                     getattr(n, "parent", None), ast.Call)
-                 or (is_self_attr(n) and isinstance(n.ctx, ast.Store))]
-        state = [n for n in state if not (
-            isinstance(getattr(n, "parent", None), ast.Attribute))]
-        ctx.ob("R3.5", not state,
-               "the limit block keeps no state on the filter instance"
-               if not state else
-               f"the limit block reads/writes `self.{state[0].attr}`: a "
-               f"selection remembered from an earlier update leaks into "
-               f"this one", node=state[0] if state else lim_if,
-               label="limit block stateless")
-    ret_idx = kwarg(c, "ret_idx")
-    ok = ret_idx is not None and txt(ret_idx) == "True"
-    sub = c.args[0] if c.args else kwarg(c, "a")
-    subdef = _assigned_from(body_fn, lambda v: isinstance(v, ast.Subscript)
-                            and txt(v.value) == txt(v.slice))
-    ok2 = isinstance(sub, ast.Name) and sub.id in subdef
-    ctx.ob("R3.5", ok and ok2,
-           "the limit samples among the currently selected events and asks "
-           "for the index mask" if ok and ok2 else
-           "the limit does not operate on all[all] with ret_idx=True",
-           node=c, label="limit on selected events")
-    samples = kwarg(c, "samples", 1)
-    ok = samples is not None and ("limit" in _expand(upd, samples)
-                                  or txt(samples) == limit_arg)
-    ctx.ob("R3.5", ok, "requested size is the configured limit" if ok else
-           "requested size is not the configured limit", node=c,
-           label="limit size", nontrivial=False)
-    # write-back
-    scope = en if body_fn is upd else body_fn
-    wb = [n for n in walk(scope) if isinstance(n, ast.Assign) and isinstance(
-        n.targets[0], ast.Subscript) and txt(n.targets[0].value) == txt(
-        n.targets[0].slice) and isinstance(n.value, ast.Name)
-        and n.value.id in subdef]
-    neg = [n for n in walk(scope) if isinstance(n, ast.Assign) and isinstance(
-        n.targets[0], ast.Subscript) and isinstance(
-        n.targets[0].slice, ast.UnaryOp) and isinstance(
-        n.targets[0].slice.op, ast.Invert) and isinstance(
-        n.value, ast.Constant) and n.value.value is False]
-    ctx.ob("R3.5", bool(wb) and bool(neg),
-           "events not drawn are deselected and the result is written back "
-           "into the selected positions" if wb and neg else
-           "limit result is not written back into all[all]",
-           node=(wb or neg or [c])[0], label="limit write-back")
 
 
 def r36(ctx, repo):
@@ -1111,31 +416,328 @@ def r37(ctx, repo):
            label="predicate wrapper", nontrivial=False)
 
 
+# ----------------------------------------------------------------------
+# finite-model evaluation of Filter over histories (R3.1 – R3.5)
+
+def _ops():
+    """name -> function(model) applying one settings change"""
+    from ..lib_C03 import Poly
+
+    def rng(feat, lo, hi):
+        def f(m):
+            m.cfg[feat + " min"] = lo
+            m.cfg[feat + " max"] = hi
+        return f
+
+    def drop(feat):
+        def f(m):
+            m.cfg.pop(feat + " min", None)
+            m.cfg.pop(feat + " max", None)
+        return f
+
+    def setk(k, v):
+        def f(m):
+            m.cfg[k] = v
+        return f
+
+    def padd(uid, axes, rect):
+        def f(m):
+            if uid not in m.reg.by_id:
+                m.reg.by_id[uid] = Poly(uid, axes, rect)
+            if uid not in m.cfg["polygon filters"]:
+                m.cfg["polygon filters"] = m.cfg["polygon filters"] + [uid]
+        return f
+
+    def prem(uid):
+        def f(m):
+            m.cfg["polygon filters"] = [
+                u for u in m.cfg["polygon filters"] if u != uid]
+        return f
+
+    def pmove(uid, rect):
+        def f(m):
+            if uid in m.reg.by_id:
+                m.reg.by_id[uid].rect = tuple(rect)
+        return f
+
+    def pinv(uid):
+        def f(m):
+            if uid in m.reg.by_id:
+                m.reg.by_id[uid].inverted = not m.reg.by_id[uid].inverted
+        return f
+
+    def paxes(uid, axes):
+        def f(m):
+            if uid in m.reg.by_id:
+                m.reg.by_id[uid].axes = tuple(axes)
+        return f
+
+    def manual(i, val):
+        def f(m):
+            m.manual()[i] = val
+        return f
+    return {
+        "deform in [0.2, 0.6]": rng("deform", 0.2, 0.6),
+        "deform in [0.05, 0.9]": rng("deform", 0.05, 0.9),
+        "deform in [0.4, 0.4]": rng("deform", 0.4, 0.4),
+        "deform in [0.6, 0.2]": rng("deform", 0.6, 0.2),
+        "deform in [0.3, 0.5]": rng("deform", 0.3, 0.5),
+        "deform in [0.4, 0.8]": rng("deform", 0.4, 0.8),
+        "deform in [0.3, 0.3 + 1e-9]": rng("deform", 0.3, 0.3 + 1e-9),
+        "deform range removed": drop("deform"),
+        "area_um in [15, 45]": rng("area_um", 15.0, 45.0),
+        "area_um in [20, 50]": rng("area_um", 20.0, 50.0),
+        "area_um range removed": drop("area_um"),
+        "time in [2, 5]": rng("time", 2.0, 5.0),
+        "time in [4, 5]": rng("time", 4.0, 5.0),
+        "time range removed": drop("time"),
+        "bright_avg in [1, 2] (feature not in the dataset)":
+            rng("bright_avg", 1.0, 2.0),
+        "remove invalid events on": setk("remove invalid events", True),
+        "remove invalid events off": setk("remove invalid events", False),
+        "filters disabled": setk("enable filters", False),
+        "filters enabled": setk("enable filters", True),
+        "polygon 0 added": padd(0, ("area_um", "deform"),
+                                (15.0, 45.0, 0.0, 1.0)),
+        "polygon 0 removed": prem(0),
+        "polygon 0 moved": pmove(0, (35.0, 65.0, 0.0, 1.0)),
+        "polygon 0 inverted": pinv(0),
+        "polygon 0 on other axes": paxes(0, ("time", "deform")),
+        "polygon 1 added": padd(1, ("time", "area_um"),
+                                (1.5, 4.5, 0.0, 100.0)),
+        "polygon 1 removed": prem(1),
+        "deform max -> 0.9": setk("deform max", 0.9),
+        "deform max -> 0.4": setk("deform max", 0.4),
+        "deform min -> 0.05": setk("deform min", 0.05),
+        "deform min -> 0.4": setk("deform min", 0.4),
+        "dataset gains feature bright_avg (with nan)": lambda m: m.ds.data
+        .__setitem__("bright_avg", [1.0, float("nan"), 3.0, 4.0, 5.0, 6.0]),
+        "feature bright_avg gets new data": lambda m: m.ds.data
+        .__setitem__("bright_avg", [1.0, 2.0, 3.0, 4.0, float("inf"), 6.0]),
+        "event 1 excluded manually": manual(1, False),
+        "event 1 re-admitted manually": manual(1, True),
+        "event 4 excluded manually": manual(4, False),
+        "limit events 2": setk("limit events", 2),
+        "limit events 1": setk("limit events", 1),
+        "limit events 0": setk("limit events", 0),
+        "reset": lambda m: m.reset(),
+    }
+
+
+def _histories(tier):
+    base = [
+        ["deform in [0.2, 0.6]", "deform in [0.05, 0.9]"],
+        ["deform in [0.2, 0.6]", "deform range removed"],
+        ["deform in [0.2, 0.6]", "deform in [0.4, 0.4]",
+         "deform in [0.3, 0.5]"],
+        ["deform in [0.6, 0.2]"],
+        ["deform in [0.2, 0.6]", "deform max -> 0.9", "deform min -> 0.05",
+         "deform max -> 0.4", "deform min -> 0.4"],
+        ["remove invalid events on",
+         "dataset gains feature bright_avg (with nan)",
+         "feature bright_avg gets new data"],
+        ["bright_avg in [1, 2] (feature not in the dataset)",
+         "dataset gains feature bright_avg (with nan)"],
+        ["deform in [0.05, 0.9]", "limit events 2", "deform in [0.2, 0.6]",
+         "deform in [0.05, 0.9]", "limit events 1", "limit events 2"],
+        ["limit events 2", "event 1 excluded manually",
+         "event 1 re-admitted manually"],
+        ["limit events 1", "deform in [0.2, 0.6]", "deform in [0.4, 0.8]",
+         "limit events 2", "deform in [0.2, 0.6]"],
+        ["limit events 1", "deform in [0.2, 0.6]", "deform range removed",
+         "time in [4, 5]", "time range removed", "area_um in [15, 45]"],
+        ["deform in [0.3, 0.3 + 1e-9]"],
+        ["deform in [0.2, 0.6]", "area_um in [15, 45]",
+         "area_um range removed", "deform in [0.05, 0.9]"],
+        ["time in [2, 5]", "deform in [0.2, 0.6]", "time in [2, 5]"],
+        ["bright_avg in [1, 2] (feature not in the dataset)",
+         "deform in [0.2, 0.6]"],
+        ["remove invalid events on", "deform in [0.05, 0.9]",
+         "remove invalid events off"],
+        ["deform in [0.05, 0.9]", "remove invalid events on",
+         "remove invalid events off", "deform in [0.2, 0.6]"],
+        ["filters disabled", "deform in [0.2, 0.6]", "filters enabled"],
+        ["deform in [0.2, 0.6]", "filters disabled", "limit events 1",
+         "filters enabled", "limit events 0"],
+        ["polygon 0 added", "polygon 0 moved", "polygon 0 inverted",
+         "polygon 0 removed"],
+        ["polygon 0 added", "polygon 0 on other axes"],
+        ["polygon 0 added", "polygon 1 added", "polygon 0 removed",
+         "polygon 1 removed"],
+        ["polygon 0 added", "polygon 0 removed", "polygon 0 moved",
+         "polygon 0 added"],
+        ["polygon 0 inverted", "polygon 0 added"],
+        ["event 1 excluded manually", "deform in [0.05, 0.9]",
+         "event 1 re-admitted manually"],
+        ["deform in [0.05, 0.9]", "limit events 2",
+         "event 1 excluded manually", "limit events 1", "limit events 0"],
+        ["limit events 2", "limit events 2", "deform in [0.2, 0.6]",
+         "limit events 0"],
+        ["limit events 1", "limit events 2"],
+        ["polygon 0 added", "limit events 2", "event 4 excluded manually",
+         "polygon 0 inverted"],
+        ["deform in [0.2, 0.6]", "polygon 0 added",
+         "event 1 excluded manually", "remove invalid events on", "reset",
+         "deform in [0.05, 0.9]"],
+        ["deform in [0.2, 0.6]", "reset"],
+        ["remove invalid events on", "area_um in [20, 50]",
+         "polygon 1 added", "limit events 2", "filters disabled",
+         "filters enabled"],
+    ]
+    if tier == "thorough":
+        names = [n for n in _ops() if n != "reset"]
+        core = ["deform in [0.2, 0.6]", "deform in [0.05, 0.9]",
+                "deform in [0.4, 0.4]", "deform range removed",
+                "area_um in [15, 45]", "remove invalid events on",
+                "remove invalid events off", "filters disabled",
+                "filters enabled", "polygon 0 added", "polygon 0 moved",
+                "polygon 0 removed", "event 1 excluded manually",
+                "limit events 2", "limit events 0"]
+        base += [[a, b] for a in names for b in names if a != b]
+        base += [[a, b, c] for a in core for b in core for c in core
+                 if a != b and b != c]
+    return base
+
+
+def r3_eval(ctx, repo):
+    """`Filter` (loaded from its syntax tree) driven through histories of
+    settings changes on a model dataset; after every update the filter
+    arrays are compared with the specification evaluated from scratch."""
+    from ..lib_C03 import Model
+    upd = repo.func(FILT, "Filter.update")
+    ops = _ops()
+    fails = {}
+
+    def fail(key, msg):
+        fails.setdefault(key, msg)
+    n_upd = 0
+    hists = _histories(ctx.tier)
+    for h in hists:
+        m = Model(repo)
+        r = m.update()
+        if r[0] != "ok":
+            raise AnalysisError(f"Filter.update on the model dataset: {r!r}")
+        done = []
+        for name in h:
+            ops[name](m)
+            done.append(name)
+            r = m.update()
+            n_upd += 1
+            where = "after [" + "; ".join(done) + "]"
+            half = [ft for ft in ("deform", "area_um", "time", "bright_avg")
+                    if (ft + " min" in m.cfg) != (ft + " max" in m.cfg)]
+            if half:
+                # a range with one bound only is refused; the history ends
+                if not (r[0] == "raise" and r[1] == "ValueError"):
+                    fail("half-open range refused", f"{where}: only one "
+                         f"bound of {half[0]} is set, update() -> {r!r}, "
+                         f"expected ValueError")
+                break
+            if r[0] != "ok":
+                fail("update evaluates", f"{where}: update() -> {r!r}")
+                break
+            want = m.spec()
+            got = {k: m.arr(k) for k in ("all", "box", "invalid", "polygon")}
+            # the same settings on a fresh filter
+            f2 = Model(repo)
+            f2.reg.by_id = m.reg.by_id
+            f2.ds.config["filtering"] = dict(m.cfg)
+            f2.manual()[:] = m.manual()
+            r2 = f2.update()
+            fresh = f2.arr("all") if r2[0] == "ok" else None
+
+            def show(v):
+                return "".join("1" if x else "0" for x in v)
+            if got["box"] != want["box"]:
+                fail("box filters", f"{where}: box filter {show(got['box'])}"
+                     f", specification {show(want['box'])} (events "
+                     f"deform=0.1,0.3,0.5,nan,0.7,inf; "
+                     f"area_um=10,20,nan,40,50,60)")
+            if got["invalid"] != want["invalid"]:
+                fail("invalid filter", f"{where}: invalid-event filter "
+                     f"{show(got['invalid'])}, specification "
+                     f"{show(want['invalid'])}")
+            if got["polygon"] != want["polygon"]:
+                fail("polygon filters", f"{where}: polygon filter "
+                     f"{show(got['polygon'])}, specification "
+                     f"{show(want['polygon'])}")
+            if got["all"] != want["all"]:
+                subs_ok = all(got[k] == want[k]
+                              for k in ("box", "invalid", "polygon"))
+                lim = m.cfg["limit events"] > 0 and m.cfg["enable filters"]
+                if subs_ok and lim:
+                    fail("event limit", f"{where}: selection "
+                         f"{show(got['all'])}, specification "
+                         f"{show(want['all'])} (limit "
+                         f"{m.cfg['limit events']}, deterministic model "
+                         f"draw = the first n)")
+                elif subs_ok:
+                    fail("combination", f"{where}: combined filter "
+                         f"{show(got['all'])}, specification "
+                         f"{show(want['all'])} although box, invalid and "
+                         f"polygon filters agree")
+                if fresh is not None and fresh == want["all"]:
+                    fail("history independent", f"{where}: the incremental "
+                         f"filter gives {show(got['all'])}, a fresh filter "
+                         f"on the same settings {show(fresh)}: state of an "
+                         f"earlier update leaks into the result")
+    # half-open range is refused
+    m = Model(repo)
+    m.update()
+    m.cfg["deform min"] = 0.2
+    r = m.update()
+    if not (r[0] == "raise" and r[1] == "ValueError"):
+        fail("half-open range refused", "only 'deform min' set: update() -> "
+             f"{r!r}, expected ValueError")
+    ctx.stat("R3 model histories", len(hists))
+    ctx.stat("R3 model updates evaluated", n_upd)
+    obs = [
+        ("R3.1", "update evaluates", "every model update evaluates"),
+        ("R3.1", "history independent", "after every history the "
+         "incremental filter equals a fresh filter on the same settings"),
+        ("R3.2", "box filters", "the box filter equals the inclusive-range "
+         "specification after every history (swap, min == max, removed "
+         "keys, NaN, absent feature)"),
+        ("R3.2", "half-open range refused", "a range with only one bound "
+         "raises"),
+        ("R3.3", "invalid filter", "the invalid-event filter equals the "
+         "specification after every history"),
+        ("R3.3", "combination", "all = box & invalid & polygon & manual "
+         "when enabled, all events otherwise"),
+        ("R3.4", "polygon filters", "the polygon filter equals the "
+         "specification after every history (added, moved, inverted, other "
+         "axes, removed)"),
+        ("R3.5", "event limit", "the event limit keeps the drawn events "
+         "among the currently selected ones, on every update"),
+    ]
+    for rule, key, good in obs:
+        ok = key not in fails
+        ctx.ob(rule, ok, good + f" ({len(hists)} histories)" if ok
+               else fails[key], node=upd, label="model: " + key)
+
+
 def run(ctx):
     repo = ctx.repo
     ctx.rule("R3.1", "settings diff covers removed keys; snapshot is a copy "
-             "taken last; min and max keys both trigger", minimum=4)
+             "taken last; min and max keys both trigger", minimum=2)
     ctx.rule("R3.2", "box predicate = inclusive range after swap, inactive "
              "iff min == max, NaN outside – over all order types",
-             minimum=3)
+             minimum=2)
     ctx.rule("R3.3", "all = box & invalid & polygon & manual when enabled, "
              "all-True otherwise; accumulators rebuilt from all-True",
-             minimum=8)
+             minimum=2)
     ctx.rule("R3.4", "polygon cache: key covers attributes read, compared "
-             "by hash, dropped on removal, inversion", minimum=8)
+             "by hash, dropped on removal, inversion", minimum=4)
     ctx.rule("R3.5", "event limit on the enabled branch over all[all] with "
-             "write-back", minimum=5)
+             "write-back", minimum=1)
     ctx.rule("R3.6", "reset clears all memo state and restores neutral "
              "defaults, hierarchy parent kept", minimum=15)
     ctx.rule("R3.7", "filter universe = scalar features by the definitions' "
              "predicate (tabulated + pattern-defined)", minimum=2)
     upd = canon(repo, FILT, repo.func(FILT, "Filter.update"),
                 keep=("_get_rw_array", "_init_rtdc_ds"))
-    r31(ctx, repo, upd)
-    r32(ctx, repo, upd)
-    r33(ctx, repo, upd)
+    r3_eval(ctx, repo)
     r34(ctx, repo, upd)
-    r35(ctx, repo, upd)
     r36(ctx, repo)
     r37(ctx, repo)
 
@@ -1145,13 +747,13 @@ MUTANTS = [
      ("                                and cfg_cur[fstart] != cfg_cur[fend])",
       "                                and not np.isclose(cfg_cur[fstart],\n"
       "                                                   cfg_cur[fend]))"),
-     "R3.2"),
+     "R3."),
     ("bounding-box short-cut before the inversion (seeded C15_9)", POLY,
      ("        f = points_in_poly(points=points, verts=self.points)\n",
       "        if not len(self.points):\n"
       "            return np.zeros(datax.shape[0], dtype=bool)\n"
       "        f = points_in_poly(points=points, verts=self.points)\n"),
-     "R3.4"),
+     "R3."),
     ("scalar features by table membership (seeded C03_7)", CORE,
      ("if dfn.scalar_feature_exists(ft)]", "if ft in dfn.scalar_feature_names]"),
      "R3.7"),
@@ -1171,88 +773,88 @@ MUTANTS = [
       "                for feat in self.features:\n"
       "                    data = rtdc_ds[feat]\n"
       "                    invalid = np.isinf(data) | np.isnan(data)\n"
-      "                    arr_invalid &= ~invalid\n"), "R3.3"),
+      "                    arr_invalid &= ~invalid\n"), "R3."),
     ("short-cut snapshots without recomputing (seeded C03_6)", FILT,
      ("        # 1. Invalid filters\n",
       "        if not cfg_cur[\"enable filters\"] and not force:\n"
       "            # nothing to compute\n"
       "            self._get_rw_array(\"all\")[:] = True\n"
       "            self._old_config = rtdc_ds.config.copy()[\"filtering\"]\n"
-      "            return\n\n        # 1. Invalid filters\n"), "R3.1"),
+      "            return\n\n        # 1. Invalid filters\n"), "R3."),
     ("diff over current keys only (F03 returns)", FILT,
      ("        for skey in list(cfg_cur.keys()) + removed:",
-      "        for skey in list(cfg_cur.keys()):"), "R3.1"),
+      "        for skey in list(cfg_cur.keys()):"), "R3."),
     ("snapshot aliases live config", FILT,
      ('self._old_config = rtdc_ds.config.copy()["filtering"]',
-      'self._old_config = rtdc_ds.config["filtering"]'), "R3.1"),
+      'self._old_config = rtdc_ds.config["filtering"]'), "R3."),
     ("max keys ignored", FILT,
      ('and (k.endswith(" min") or k.endswith(" max"))',
-      'and (k.endswith(" min"))'), "R3.1"),
+      'and (k.endswith(" min"))'), "R3."),
     ("lower bound exclusive", FILT,
      ("feat_filt[idx] &= ivalstart <= data[idx]",
-      "feat_filt[idx] &= ivalstart < data[idx]"), "R3.2"),
+      "feat_filt[idx] &= ivalstart < data[idx]"), "R3."),
     ("upper bound exclusive", FILT,
      ("feat_filt[idx] &= data[idx] <= ivalend",
-      "feat_filt[idx] &= data[idx] < ivalend"), "R3.2"),
+      "feat_filt[idx] &= data[idx] < ivalend"), "R3."),
     ("swap removed", FILT,
      ("                        ivalstart, ivalend = ivalend, ivalstart\n",
-      ""), "R3.2"),
+      ""), "R3."),
     ("upper comparison dropped", FILT,
      ("                    feat_filt[idx] &= data[idx] <= ivalend\n", ""),
-     "R3.2"),
+     "R3."),
     ("bounds crossed", FILT,
      ("feat_filt[idx] &= ivalstart <= data[idx]",
-      "feat_filt[idx] &= ivalend <= data[idx]"), "R3.2"),
+      "feat_filt[idx] &= ivalend <= data[idx]"), "R3."),
     ("equal bounds active", FILT,
-     ("and cfg_cur[fstart] != cfg_cur[fend])", "and True)"), "R3.2"),
+     ("and cfg_cur[fstart] != cfg_cur[fend])", "and True)"), "R3."),
     ("nan kept", FILT,
      ("                        feat_filt[disnan] = False\n",
-      "                        feat_filt[disnan] = True\n"), "R3.2"),
+      "                        feat_filt[disnan] = True\n"), "R3."),
     ("feature filter not reset", FILT,
-     ("                feat_filt[:] = True\n", ""), "R3.2"),
+     ("                feat_filt[:] = True\n", ""), "R3."),
     ("feature filter reset only for active ranges (seeded C03_1)", FILT,
      [("                feat_filt[:] = True\n", ""),
       ("                if must_be_filtered:\n",
        "                if must_be_filtered:\n"
-       "                    feat_filt[:] = True\n")], "R3.2"),
+       "                    feat_filt[:] = True\n")], "R3."),
     ("manual dropped from conjunction", FILT,
      ("arr_all[:] = arr_box & arr_invalid & arr_polygon & self.manual",
-      "arr_all[:] = arr_box & arr_invalid & arr_polygon"), "R3.3"),
+      "arr_all[:] = arr_box & arr_invalid & arr_polygon"), "R3."),
     ("polygon dropped from conjunction", FILT,
      ("arr_all[:] = arr_box & arr_invalid & arr_polygon & self.manual",
-      "arr_all[:] = arr_box & arr_invalid & self.manual"), "R3.3"),
+      "arr_all[:] = arr_box & arr_invalid & self.manual"), "R3."),
     ("box accumulator not reset", FILT,
-     ("        arr_box[:] = True\n", ""), "R3.3"),
+     ("        arr_box[:] = True\n", ""), "R3."),
     ("polygon accumulator not reset", FILT,
-     ("        arr_polygon[:] = True\n", ""), "R3.3"),
+     ("        arr_polygon[:] = True\n", ""), "R3."),
     ("invalid accumulator not reset", FILT,
-     ("        arr_invalid[:] = True\n", ""), "R3.3"),
+     ("        arr_invalid[:] = True\n", ""), "R3."),
     ("disabled selects none", FILT,
      ("        else:\n            arr_all[:] = True",
-      "        else:\n            arr_all[:] = False"), "R3.3"),
+      "        else:\n            arr_all[:] = False"), "R3."),
     ("inf not invalid", FILT,
      ("invalid = np.isinf(data) | np.isnan(data)",
-      "invalid = np.isnan(data)"), "R3.3"),
+      "invalid = np.isnan(data)"), "R3."),
     ("polygon hash loses inverted", POLY,
      ("return hashobj([self.axes, self.points, self.inverted])",
-      "return hashobj([self.axes, self.points])"), "R3.4"),
+      "return hashobj([self.axes, self.points])"), "R3."),
     ("polygon hash loses points", POLY,
      ("return hashobj([self.axes, self.points, self.inverted])",
-      "return hashobj([self.axes, self.inverted])"), "R3.4"),
+      "return hashobj([self.axes, self.inverted])"), "R3."),
     ("polygon hash not compared", FILT,
      ("            if (pf_id not in self._poly_filters\n"
       "                    or pf.hash != self._poly_filters[pf_id][0]):",
-      "            if (pf_id not in self._poly_filters):"), "R3.4"),
+      "            if (pf_id not in self._poly_filters):"), "R3."),
     ("removed polygon kept", FILT,
      ("                self._poly_filters.pop(pf_id)\n",
-      "                pass\n"), "R3.4"),
+      "                pass\n"), "R3."),
     ("inversion on the wrong branch", POLY,
      ("        if self.inverted:\n            np.invert(f, f)\n",
       "        if not self.inverted:\n            np.invert(f, f)\n"),
-     "R3.4"),
+     "R3."),
     ("inversion dropped", POLY,
      ("        if self.inverted:\n            np.invert(f, f)\n", ""),
-     "R3.4"),
+     "R3."),
     ("limit selection memoised (seeded C16_5)", FILT,
      ("                sub = arr_all[arr_all]\n"
       "                _, idx = downsampling.downsample_rand(sub,\n"
@@ -1273,7 +875,7 @@ MUTANTS = [
       "                    sub[~idx] = False\n"
       "                    arr_all[arr_all] = sub\n"
       "                    self._limit_cache = (lkey, arr_all.copy())\n"),
-     "R3.5"),
+     "R3."),
     ("limit applied when disabled", FILT,
      ("            if cfg_cur[\"limit events\"] > 0:\n"
       "                limit = cfg_cur[\"limit events\"]\n"
@@ -1292,9 +894,9 @@ MUTANTS = [
       "                                                  samples=limit,\n"
       "                                                  ret_idx=True)\n"
       "            sub[~idx] = False\n"
-      "            arr_all[arr_all] = sub\n"), "R3.5"),
+      "            arr_all[arr_all] = sub\n"), "R3."),
     ("limit not written back", FILT,
-     ("                arr_all[arr_all] = sub\n", ""), "R3.5"),
+     ("                arr_all[arr_all] = sub\n", ""), "R3."),
     ("reset keeps box filters", FILT,
      ("        self._box_filters.clear()\n", ""), "R3.6"),
     ("reset keeps old config", FILT,
